@@ -952,9 +952,12 @@ class Enforcer:
                 # it, continue as if it were empty.
                 data = ''
             rules = Rules.load(data, self.default_rule)
+            # Record where the rules came from before publishing them: a
+            # concurrent enforce() that merges deprecated defaults into
+            # the new rule store must already see the file's overrides.
+            self._record_file_rules(data, overwrite)
             self.set_rules(rules, overwrite=overwrite, use_conf=True)
             rules_changed = True
-            self._record_file_rules(data, overwrite)
             LOG.debug('Reloaded policy file: %(path)s', {'path': path})
         return rules_changed
 
